@@ -126,6 +126,13 @@ let run_hist sch (h0 : heap) (outs0 : pval list) (root : nat option) (ops : stri
       let o = parse_op outs !n s in
       let h', r = step sch !h o in
       refine_law sch !h o h' r;
+      (* the statements of Model/ReflectProg.v on this step: the canonical method bodies (what the eight templates emit for the
+         schema), interpreted, are Reflect.step; the heap invariant they assume is kept *)
+      Driver.law "C08.reflect_prog_correct" (reflect_prog_law sch !h o);
+      Driver.law "C08.rp_heap_ok_kept" (rp_heap_okb sch !h && rp_heap_ok_kept_law sch !h o);
+      (match words s, o with
+       | [ "rstop"; _; k ], ORange (PMsg (m, p)) -> Driver.law "C08.range_stop_prog" (range_stop_law sch !h m p (nat_of_int (int_of_string k)))
+       | _ -> ());
       (* rstop / mrstop: a Range whose callback returns false at once makes exactly one callback when anything is populated *)
       let stop = (match words s with [ ("rstop" | "mrstop"); _; n ] -> Some (int_of_string n) | _ -> None) in
       let capped k len = PScalar (VInt (z_of_dec (string_of_int (min k len)))) in
